@@ -177,6 +177,13 @@ var c04Unused = []string{
 	"const u%N = []; u%N.push(%P);",
 	"plain.assigned%N = 1;",
 	"setter.s = 1;",
+	// functions whose calls the minifier may inline (empty / identity) but that are reassigned from code that is itself
+	// unused: the call is live, the only other reference is not
+	"function noop%N() {} function setNoop%N(f) { noop%N = f } noop%N(log('noop%N arg'));",
+	"function ident%N(x) { return x } function setIdent%N(f) { ident%N = f } log('ident', ident%N(%N));",
+	"function noop%N() {} const unusedSetter%N = () => { noop%N = null }; noop%N();",
+	"function bump%N() {} function reset%N() { bump%N = function() { log('bumped') } } export function later%N() { bump%N() }",
+	"var fnv%N = function() {}; function setFnv%N() { fnv%N = () => log('v2') } fnv%N();",
 }
 
 const c04Helpers = `
